@@ -196,7 +196,9 @@ def validity_sample(prop, seed, exe, cdir, n, rdir):
 
 
 VARIANT_OPTS = [("default", []), ("-p", ["-p"]), ("-f1", ["-f", "1"]), ("-g", ["-g"]), ("-m", ["-m"]), ("gnu-ld", ["-d", "gnu-ld"]),
-                ("-f3-t4-p", ["-f", "3", "-t", "4", "-p"]), ("gnu-ld-f2", ["-d", "gnu-ld", "-f", "2"])]
+                ("-f3-t4-p", ["-f", "3", "-t", "4", "-p"]), ("gnu-ld-f2", ["-d", "gnu-ld", "-f", "2"]),
+                # comparison against a reference module: a sibling of the same spec script (most functions dynamic), and the module itself (all static)
+                ("-r-sibling", ["-r", "@SIBLING"]), ("-r-sibling-f1", ["-r", "@SIBLING", "-f", "1"]), ("-r-self-f2", ["-r", "@SELF", "-f", "2"])]
 
 
 def data_shape(path):
@@ -276,6 +278,10 @@ def build_and_run_variant(xl, name, opts, wd):
     tests = os.path.join(REPO, "tests")
     os.makedirs(wd, exist_ok=True)
     out_c = "test_%s.c" % name
+    if "@SIBLING" in opts or "@SELF" in opts:
+        stem, _, num = name.rpartition(".")
+        sib = next((c for c in ("%s.%d" % (stem, k) for k in range(0, 40)) if c != name and os.path.exists(os.path.join(tests, "gen", c + ".wasm"))), "address.0")
+        opts = [os.path.join(tests, "gen", (sib if o == "@SIBLING" else name) + ".wasm") if o in ("@SIBLING", "@SELF") else o for o in opts]
     r = subprocess.run([xl] + opts + [os.path.join(tests, "gen", name + ".wasm"), out_c], cwd=wd, stdout=subprocess.PIPE, stderr=subprocess.PIPE, timeout=120)
     if r.returncode != 0:
         raise BuildError("translate failed: " + r.stderr.decode(errors="replace")[-400:])
